@@ -108,6 +108,17 @@ def handle (op : String) (args : List String) (_text : String) : Option String :
             (acc.1 + 1, acc.2.1 + x, acc.2.2 ^^^ x)) (0, (0 : UInt64), (0 : UInt64))
           some s!"{n} {hex16 sum} {hex16 xor}"
     | _, _, _, _, _ => some "PANIC"
+  | "treelisttask", [s, c, h, l, i] =>
+    -- the programs of one sub-tree, `;`-joined, emission order (search side: named after a hash mismatch)
+    match numArg s, numArg c, numArg h, numArg l, numArg i with
+    | some s, some c, some h, some l, some i =>
+      match (makeInstrs (min 3 s) (min 3 c))[i]? with
+      | none => some "BAD-ARGS"
+      | some instr =>
+        match buildTask s c (h != 0) l instr with
+        | .error e => some (showErr e)
+        | .ok sub => some (";".intercalate (sub.map fun p => p.show (some (s, c))))
+    | _, _, _, _, _ => some "PANIC"
   | "treetasks", [s, c, h, l] =>
     some (withTree s c h l fun _ ls => ",".intercalate (ls.map fun sub => toString sub.length))
   | _, _ => none
